@@ -25,7 +25,7 @@ def g1_pairs(tier):
         # identity modes rotate over the lattice: ascending numbers, descending numbers (file order need not be sorted order),
         # same number told apart by insertion codes only (ascending / descending)
         k += 1
-        yield dict(g=1, l1=l1, l2=l2, r=r, th=th, ph=ph, flip=flip, rise=rise, tilt=tilt, idmode=k % 4, namemode=(k // 4) % 3, thinmode=[0, 0, 0, 1, 0, 2][(k // 12) % 6])
+        yield dict(g=1, l1=l1, l2=l2, r=r, th=th, ph=ph, flip=flip, rise=rise, tilt=tilt, idmode=k % 6, namemode=(k // 6) % 3, thinmode=[0, 0, 0, 1, 0, 2][(k // 12) % 6])
 
 
 def g1_stack(tier):
@@ -42,7 +42,7 @@ def g1_stack(tier):
         if lat == 0.0 and th != ths[0]:
             continue
         kk += 1
-        yield dict(g=1, l1=l1, l2=l2, r=lat, th=th, ph=tw, flip=flip, rise=sign * rise, tilt=tilt, idmode=kk % 4, namemode=(kk // 4) % 3, thinmode=[0, 0, 0, 1, 0, 2][(kk // 12) % 6])
+        yield dict(g=1, l1=l1, l2=l2, r=lat, th=th, ph=tw, flip=flip, rise=sign * rise, tilt=tilt, idmode=kk % 6, namemode=(kk // 6) % 3, thinmode=[0, 0, 0, 1, 0, 2][(kk // 12) % 6])
 
 
 # residue names of modified nucleotides whose one-letter code (as given by the sequence records of a file) is the parent base
@@ -61,6 +61,11 @@ def _thin(atoms, case, k):
     return atoms
 
 
+# identity modes of the two lattice residues: ascending, descending, same number told apart by insertion code (ascending / descending),
+# and numbers around zero (0 and negative numbers are ordinary author numbers)
+IDMODES = [((1, None), (2, None)), ((7, None), (3, None)), ((5, None), (5, "A")), ((5, "B"), (5, "A")), ((0, None), (1, None)), ((0, None), (-1, None))]
+
+
 def _rn(letter, case, k):
     """Residue name: the plain letter, or (name mode 1) a modified-residue name for every other residue position."""
     return MODIFIED_NAMES[letter] if case.get("namemode") and (k + case.get("namemode")) % 2 == 0 else letter
@@ -68,7 +73,7 @@ def _rn(letter, case, k):
 
 def specs_of(case):
     """Residue specifications of a g=1 lattice case (used to assemble multi-model structures)."""
-    (n1, i1), (n2, i2) = [((1, None), (2, None)), ((7, None), (3, None)), ((5, None), (5, "A")), ((5, "B"), (5, "A"))][case.get("idmode", 0)]
+    (n1, i1), (n2, i2) = IDMODES[case.get("idmode", 0)]
     return [("A", n1, i1, _rn(case["l1"], case, 0), case["l1"], _thin(enum3d.origin(case["l1"]), case, 0)),
             ("A", n2, i2, _rn(case["l2"], case, 1), case["l2"], _thin(enum3d.place(case["l2"], case["r"], case["th"], case["ph"], case["flip"], case.get("rise", 0.0), case.get("tilt", 0.0)), case, 1))]
 
@@ -89,7 +94,7 @@ def two_model_cases(source, stride, offset):
 
 def structure_of(case):
     if case["g"] == 1:
-        (n1, i1), (n2, i2) = [((1, None), (2, None)), ((7, None), (3, None)), ((5, None), (5, "A")), ((5, "B"), (5, "A"))][case.get("idmode", 0)]
+        (n1, i1), (n2, i2) = IDMODES[case.get("idmode", 0)]
         specs = [("A", n1, i1, _rn(case["l1"], case, 0), case["l1"], _thin(enum3d.origin(case["l1"]), case, 0)),
                  ("A", n2, i2, _rn(case["l2"], case, 1), case["l2"], _thin(enum3d.place(case["l2"], case["r"], case["th"], case["ph"], case["flip"], case.get("rise", 0.0), case.get("tilt", 0.0)), case, 1))]
         return ac.build_structure(specs)
